@@ -1,6 +1,8 @@
 import CG.Drv.Hex
 import CG.Model.TxValidate
 import CG.Spec.Conservation
+import CG.Model.TxScript
+import CG.Drv.Script
 namespace CG.Drv.C04
 open CG CG.Drv CG.Model.TxValidate
 
@@ -51,6 +53,21 @@ def trivialScript (unlock lock : Bytes) : Option (Outcome Bool) :=
     | _ => some (.ok false)
   else none
 
+/-- the script check of one input as `Tx::validate` performs it (`CG.Model.TxScript.validateInput`: the unlocking script
+    alone, then the locking script on the stack it left, fresh alt stack and control-flow state), decided here for scripts
+    that contain no signature / timelock opcode byte at all (their checks need the transaction context, which C03 covers);
+    `flags` = 1 for pre-genesis rules -/
+def realScript (flags : Nat) (unlock lock : Bytes) : Option (Outcome Bool) :=
+  let sigop := fun (b : UInt8) => b == 0xac || b == 0xad || b == 0xae || b == 0xaf || b == 0xb1 || b == 0xb2
+  if (unlock ++ lock).any sigop then none
+  else
+    let C := CG.Drv.Script.oracle 'e' 'e'
+    let o : CG.Drv.Script.OState := { sigs := [], log := [] }
+    match Model.TxScript.validateInput CG.Drv.Script.hashes C o unlock lock flags with
+    | .ok _ => some (.ok true)
+    | .err _ => some (.ok false)
+    | .panic p => some (.panic p)
+
 def unitStr : Outcome Unit → String
   | .ok _ => "ok" | .err e => "err:" ++ e | .panic _ => "panic"
 
@@ -69,7 +86,7 @@ def payloadReply (m : Outcome Unit) (txs : List Tx) : String :=
 
 def handle (op : String) (a : List String) : Option String :=
   match op, a with
-  | "c04.tx", [prof, _fork, gen, lt, ins, outs, utxos, _pregen] =>
+  | "c04.tx", [prof, _fork, gen, lt, ins, outs, utxos, pregen] =>
     let r : Option String := do
       let p ← parseProfile prof
       let lt ← lt.toNat?
@@ -85,7 +102,14 @@ def handle (op : String) (a : List String) : Option String :=
         | some tin =>
           match ut tin.prevOutput with
           | none => some (.ok false)      -- never consulted: validation fails before the script loop
-          | some o => trivialScript tin.unlockScript o.lockScript
+          | some o =>
+            match trivialScript tin.unlockScript o.lockScript with
+            | some r => some r
+            | none =>
+              -- pre-genesis rules unless the Genesis rules are on and the spent output is not marked pre-genesis
+              let pre := ((splitList pregen ",").filterMap String.toNat?).any fun k =>
+                match m[k]? with | some e => e.1 == tin.prevOutput | none => false
+              realScript (if gen == "1" && !pre then 0 else 1) tin.unlockScript o.lockScript
       if (List.range ins.length).all (fun i => (oracle i).isSome) then
         let sok : Nat → Outcome Bool := fun i => (oracle i).getD (.ok false)
         let mres := validate p (gen == "1") tx ut sok
